@@ -336,6 +336,9 @@ func c10Run(c *Ctx, i int, r *gen.R) {
 			p := paths[r.Intn(len(paths))]
 			t := fresh(p)
 			depth := r.Range(1, 3)
+			if k == 5 {
+				depth = gen.Pick(r, []int{8, 9, 10, 12, 17, 33}) // a tall tower: nothing in the statement bounds the depth
+			}
 			chain := p.name
 			type link struct {
 				name   string
@@ -379,7 +382,7 @@ func init() {
 	register(&Prop{
 		ID:    "C10",
 		Level: "exploration",
-		Rule: "one random table (0-4 columns x 0-5 rows, ragged/zero-cell rows, separators, header anywhere, every row-building route, hostile texts, occasionally size-declaring or non-string items) per case; its construction history is replayed on a table from every creation path (tabular.New, csv/html/json/markdown/texttable.New, auto.New(style) for every listed style) and rendered to every target format (csv, html, json, markdown, text under the default and every registered decoration, including seven application-registered ones with mixed-case, upper-cased-built-in, dotted and spaced names, one of them made of fmt/template/HTML metacharacters) through every route (package Render/RenderTo, Wrap().Render/RenderTo, auto.Render/RenderTo/Wrap with case variants, trailing sections and texttable. prefixes) plus 6 random wrapper nestings of depth 1-3 per format; each render uses a freshly built table. " +
+		Rule: "one random table (0-4 columns x 0-5 rows, ragged/zero-cell rows, separators, header anywhere, every row-building route, hostile texts, occasionally size-declaring or non-string items) per case; its construction history is replayed on a table from every creation path (tabular.New, csv/html/json/markdown/texttable.New, auto.New(style) for every listed style) and rendered to every target format (csv, html, json, markdown, text under the default and every registered decoration, including seven application-registered ones with mixed-case, upper-cased-built-in, dotted and spaced names, one of them made of fmt/template/HTML metacharacters) through every route (package Render/RenderTo, Wrap().Render/RenderTo, auto.Render/RenderTo/Wrap with case variants, trailing sections and texttable. prefixes) plus 6 random wrapper nestings per format (five of depth 1-3, one of depth 8-33); each render uses a freshly built table. " +
 			"Every output and error status must equal the reference route (tabular.New + direct Wrap + Render); right after any render that returned an error, Render and RenderTo of a small well-formed table are compared in all five formats. Distinct = distinct (shape, texts); non-trivial = at least one column and one body row.",
 		Assumptions: []string{
 			"equality only: which bytes are right is the business of C03-C08",
